@@ -547,4 +547,4 @@ TASKS += [t for t in _CTOR.TASKS if True]
 
 # is_similar / __eq__ of the curve classes (contracts/similar.py): the constructors the reader goes through refuse curves that are not similar
 import contracts.similar as _SIM
-TASKS += [t for t in _SIM.TASKS if ".timeseries." not in t.label and ".seismic_recording_3c." not in t.label]
+TASKS += [t for t in _SIM.TASKS if ".timeseries." not in t.label and ".seismic_recording_3c." not in t.label and ".settings." not in t.label]
